@@ -4910,6 +4910,10 @@ M('C18', 'pubfields-not-among-copied-integers', FL, "        for i in self.__pub
 # reverse of fix 1e3bd89: the opaque containers lose `data` on copy again (C18.9 over the fallback key material, C14.6 over both)
 _OPQ_PUB_COPY = "    def __copy__(self):\n        pk = super(OpaquePubKey, self).__copy__()\n        pk.data = copy.copy(self.data)\n        return pk\n"
 _OPQ_SIG_COPY = "    def __copy__(self):\n        sig = super(OpaqueSignature, self).__copy__()\n        sig.data = copy.copy(self.data)\n        return sig\n"
+# reverse of the OpaquePubKey.__len__ fix and neighbours (C18.3 fallback instance)
+M('C18', 'opaque-keymaterial-length-removed', FL, "    def __len__(self):\n        return len(self.data)\n\n    def __bytearray__(self):\n        return self.data\n", "    def __bytearray__(self):\n        return self.data\n", 'C18.3')
+M('C18', 'opaque-keymaterial-publen-zero', FL, "    def __len__(self):\n        return len(self.data)\n\n    def __bytearray__(self):\n        return self.data\n", "    def __len__(self):\n        return len(self.data)\n\n    def publen(self):\n        return 0\n\n    def __bytearray__(self):\n        return self.data\n", 'C18.3')
+T('C18', 'twin-opaque-keymaterial-length-via-bytearray', FL, "    def __len__(self):\n        return len(self.data)\n\n    def __bytearray__(self):\n        return self.data\n", "    def __len__(self):\n        return len(self.__bytearray__())\n\n    def __bytearray__(self):\n        return self.data\n")
 M('C18', 'opaque-keymaterial-copy-removed', FL, _OPQ_PUB_COPY, "", 'C18.9')
 M('C18', 'opaque-keymaterial-copy-empty-data', FL, "        pk.data = copy.copy(self.data)\n        return pk", "        pk.data = bytearray()\n        return pk", 'C18.9')
 M('C14', 'opaque-keymaterial-copy-removed', FL, _OPQ_PUB_COPY, "", 'C14.6')
@@ -4918,6 +4922,11 @@ M('C14', 'opaque-signature-copy-from-itself', FL, "        sig.data = copy.copy(
 M('C14', 'ecdh-copy-kdf-default', FL, "        pkt.oid = self.oid\n        pkt.kdf = copy.copy(self.kdf)\n        return pkt", "        pkt.oid = self.oid\n        return pkt", 'C14.6')
 M('C14', 'signature-material-copy-skips-first-integer', TYP, "        for m in self.__mpis__:\n            setattr(pk, m, copy.copy(getattr(self, m)))", "        for m in list(self.__mpis__)[1:]:\n            setattr(pk, m, copy.copy(getattr(self, m)))", 'C14.6')
 T('C14', 'twin-opaque-signature-copy-bytearray', FL, "        sig.data = copy.copy(self.data)\n        return sig", "        sig.data = bytearray(self.data)\n        return sig")
+# reverse of the UserID.__copy__ fix: the codec flag is dropped / defaulted on copy again (C14.6 over the packets of a key export)
+M('C14', 'userid-copy-drops-codec-flag', PK, "        uid.uid = self.uid\n        uid._encoding_fallback = self._encoding_fallback\n        return uid", "        uid.uid = self.uid\n        return uid", 'C14.6')
+M('C14', 'userid-copy-codec-flag-constant', PK, "        uid._encoding_fallback = self._encoding_fallback\n", "        uid._encoding_fallback = False\n", 'C14.6')
+M('C14', 'sigv4-copy-shares-nothing-of-hash2', PK, "        spkt.hash2 = copy.copy(self.hash2)\n", "        spkt.hash2 = bytearray(2)\n", 'C14.6')
+T('C14', 'twin-userid-copy-flag-first', PK, "        uid.uid = self.uid\n        uid._encoding_fallback = self._encoding_fallback\n        return uid", "        uid._encoding_fallback = self._encoding_fallback\n        uid.uid = self.uid\n        return uid")
 # --- other kinds
 M('C18', 'fingerprint-cached-never-invalidated', PK, "        fp = hashlib.new('sha1')\n\n        plen = self.keymaterial.publen()", "        if getattr(self, '_fpr_cache', None) is not None:\n            return self._fpr_cache\n        fp = hashlib.new('sha1')\n\n        plen = self.keymaterial.publen()",
   'C18.1', more=[(PK, "        return Fingerprint(fp.hexdigest().upper())", "        self._fpr_cache = Fingerprint(fp.hexdigest().upper())\n        return self._fpr_cache")])
